@@ -39,6 +39,14 @@ pub fn compare_test(got: &TestCase, exp: &ExpectedTest, with_title: bool) -> Res
         ));
     }
     let got_lines: Vec<String> = got.expectations.iter().map(|e| e.original_string()).collect();
+    // lines before the `$` line: read as expectations today; the documentation is silent, so a
+    // reading that leaves them out is accepted as well (the command, the lines after it, exit
+    // code, config and line number are asserted either way)
+    let exp_after: Vec<String> = exp.expectations[exp.pre_count..].to_vec();
+    if exp.pre_count > 0 && got_lines == exp_after {
+        let narrowed = ExpectedTest { expectations: exp_after, pre_count: 0, ..exp.clone() };
+        return compare_test(got, &narrowed, with_title);
+    }
     if got_lines != exp.expectations {
         return Err(format!(
             "expectation lines {:?}, written {:?}",
@@ -320,8 +328,87 @@ pub fn property() -> Property {
                 }),
                 check: Box::new(check_extended),
             }),
+            Box::new(PropPart::<MdSoup> {
+                name: "soup",
+                rule: "arbitrary sequences of Markdown-like lines (fences of any length with and without language / config, unbalanced fences, `$` / `>` / `[n]` lines anywhere, front-matter delimiters, one line in six a lead-in followed by random Unicode text): no crash; if accepted, line numbers point at ascending `$ ` lines, not more tests than `$ ` lines, `update` with empty outputs keeps the commands. Non-trivial: >=4 lines",
+                quick: 60_000,
+                thorough: 2_000_000,
+                max_workers: 0,
+                strategy: Box::new(|_| soup_strategy()),
+                check: Box::new(check_md_soup),
+            }),
         ],
     }
+}
+
+/// line soup: Markdown-like lines in any order (the same oracle as the byte-level target)
+#[derive(Clone, Debug, Serialize, Deserialize)]
+pub struct MdSoup {
+    pub lines: Vec<String>,
+    pub final_newline: bool,
+}
+
+const MD_SOUP: &[&str] = &[
+    "```scrut", "```scrut", "```", "```", "````", "`````", "```scrut {timeout: 3s}", "```scrut{detached: true}", "```scrut {", "```bash",
+    "``` scrut", "```scrut ", "``` ", "$ echo x", "$ echo y", "$ ", "$", "> y", "out", "[1]", "[2]", "[256]", "", "", "# heading", "text",
+    "---", "key: value", "total_timeout: 3s", "defaults: {", "`inline`", "```not a fence`", "~~~", "    $ indented", "x (re)",
+    "( (re)", "\\x (esc)", "# comment", "世", "  ", "aé", "\u{a0}```scrut", "- item", "> quote",
+];
+
+fn soup_strategy() -> proptest::strategy::BoxedStrategy<MdSoup> {
+    use proptest::prelude::*;
+    let line = prop_oneof![
+        5 => proptest::sample::select(MD_SOUP.to_vec()).prop_map(String::from),
+        1 => (proptest::sample::select(vec!["", "$ ", "> ", "```", "```scrut ", "# ", "  "]), "\\PC{0,6}")
+            .prop_map(|(lead, text)| format!("{lead}{}", text.replace(['\n', '\r'], ""))),
+    ];
+    // chunks: single lines, or a scrut / foreign block skeleton with soup lines inside
+    let chunk = prop_oneof![
+        3 => line.clone().prop_map(|l| vec![l]),
+        2 => (3usize..6, proptest::collection::vec(line.clone(), 0..3), proptest::bool::weighted(0.85)).prop_map(|(n, inner, close)| {
+            let mut v = vec![format!("{}scrut", "`".repeat(n)), "$ echo block".to_string()];
+            v.extend(inner);
+            if close {
+                v.push("`".repeat(n));
+            }
+            v
+        }),
+        1 => (3usize..6, proptest::collection::vec(line, 0..3)).prop_map(|(n, inner)| {
+            let mut v = vec![format!("{}text", "`".repeat(n))];
+            v.extend(inner);
+            v.push("`".repeat(n));
+            v
+        }),
+    ];
+    (
+        proptest::collection::vec(chunk, 0..8).prop_map(|c| c.into_iter().flatten().collect::<Vec<String>>()),
+        any::<bool>(),
+    )
+        .prop_map(|(lines, final_newline)| MdSoup { lines, final_newline })
+        .boxed()
+}
+
+fn check_md_soup(c: &MdSoup) -> V {
+    let mut text = c.lines.join("\n");
+    if c.final_newline && !text.is_empty() {
+        text.push('\n');
+    }
+    let parsed = md_parse(&text);
+    let accepted = matches!(&parsed, Ok(Ok((_, t))) if !t.is_empty());
+    let v = V::pass()
+        .nt(c.lines.len() >= 4)
+        .label(if accepted { "accepted_with_tests" } else if matches!(parsed, Ok(Ok(_))) { "accepted_without_tests" } else { "rejected" });
+    if let Some(m) = crate::fuzz::markdown(text.as_bytes()) {
+        return V::fail(format!("{m}\ndocument:\n{text}"));
+    }
+    if let Ok(Ok((_, tests))) = &parsed {
+        // no test out of nothing: every command starts on a `$ ` line inside the text
+        let dollar_lines = text.lines().filter(|l| l.starts_with("$ ")).count();
+        if tests.len() > dollar_lines {
+            return V::fail(format!("{} tests from {} `$ ` lines\ndocument:\n{text}", tests.len(), dollar_lines));
+        }
+    }
+    v
 }
 
 #[allow(dead_code)]
